@@ -1624,7 +1624,10 @@ def h_runnable_do(eng, st, self_v, args, kwargs):
 
 def h_time_helper(eng, st, self_v, args, kwargs):
     """runnable.time_helper(timeout): yields True an unknown number of times (eager abstraction of the generator)"""
-    return eng.ok(st, B.new_abslist(eng, st, lambda e, s: [(s, TRUE)], name="ticks"))
+    lst = B.new_abslist(eng, st, lambda e, s: [(s, TRUE)], name="ticks")
+    if args and isinstance(args[0], C) and args[0].v is None:
+        st.axiom(st.obj(lst).meta["nonempty"])       # no timeout: the generator never ends, so there is a first tick
+    return eng.ok(st, lst)
 
 
 def h_interruptable_sleep(eng, st, self_v, args, kwargs):
@@ -1668,8 +1671,10 @@ def h_cursor_prop(name):
             res.append((st, (VAL, NONE)))
             return res
         if name == "current_cursor" and "_cursor_value" in o.fields:
-            return eng.ok(st, o.fields["_cursor_value"])
-        v = opt(P.fresh_name("%s.%s" % (o.meta.get("name"), name)), P.fresh("Cursor", "%s.%s" % (o.meta.get("name"), name)))
+            v = o.fields["_cursor_value"]
+        else:
+            v = opt(P.fresh_name("%s.%s" % (o.meta.get("name"), name)), P.fresh("Cursor", "%s.%s" % (o.meta.get("name"), name)))
+        st.effects.append(Effect("cursor", "get_" + name, [], {}, v))
         return eng.ok(st, v)
     return h
 
